@@ -78,12 +78,30 @@ func checkSAKeys(sa *security.IKESAKey, s bridge.SuiteSel, want ref.IKEKeys) err
 		if o.h == nil || (fmt.Sprintf("%v", o.h) == "<nil>") {
 			return fmt.Errorf("%s is nil", o.name)
 		}
-		var got []byte
-		if err := probe.Try(func() error { o.h.Reset(); o.h.Write(probeMsg); got = o.h.Sum(nil); return nil }); err != nil {
+		// The object as it was handed out (the SA has only been printed since): ready to use - what is written to it first is
+		// the start of the MAC input. Sum does not end the computation (hash.Hash): further octets continue it. Reset starts over.
+		var first, running, got []byte
+		more := []byte("... and more")
+		if err := probe.Try(func() error {
+			o.h.Write(probeMsg)
+			first = o.h.Sum(nil)
+			o.h.Write(more)
+			running = o.h.Sum(nil)
+			o.h.Reset()
+			o.h.Write(probeMsg)
+			got = o.h.Sum(nil)
+			return nil
+		}); err != nil {
 			return fmt.Errorf("%s: %v", o.name, err)
 		}
 		if !bytes.Equal(got, ref.HMAC(o.alg, o.key, probeMsg)) {
 			return fmt.Errorf("%s is not HMAC keyed with its SK_* key", o.name)
+		}
+		if !bytes.Equal(first, got) {
+			return fmt.Errorf("%s, used as handed out (no Reset first), does not give HMAC(SK, input): the object is not ready to use - something was written to it before (when the SA was derived or printed)", o.name)
+		}
+		if !bytes.Equal(running, ref.HMAC(o.alg, o.key, append(append([]byte(nil), probeMsg...), more...))) {
+			return fmt.Errorf("%s: Write(a), Sum, Write(b), Sum does not give HMAC(SK, a|b) the second time: Sum changes the state of the object", o.name)
 		}
 	}
 	for _, o := range []struct {
